@@ -75,7 +75,10 @@ fn cfg15() -> GenCfg {
 
 /// same member order as the Value: results must be identical, position by position
 fn random_diff(src: &mut Src, obs: &mut Obs) -> Res {
-    let cfg = cfg15();
+    let mut cfg = cfg15();
+    // names that start and end with a quote, contain backslashes, ...: the comparison is differential,
+    // so the open findings about escapes cancel
+    cfg.special_keys = src.bool();
     let doc = gen_doc(src, &cfg).sorted();
     let q = gen_query(src, &doc, &cfg);
     let blanks = src.chance(1, 4);
